@@ -122,7 +122,7 @@ class _STIXBase(collections.abc.Mapping):
         # (2.0 file/directory observables use the same names for file system
         # times, which are unrelated to object versioning.)
         if (
-            not isinstance(self, _Observable) and
+            not isinstance(self, _Observable) and 'id' in self._properties and
             isinstance(created, dt.datetime) and
             isinstance(modified, dt.datetime) and modified < created
         ):
